@@ -1,9 +1,10 @@
 (* C11 -- a layer's mount configuration survives rewrites and crashes.  Statements only.
    Hypotheses are decidable predicates defined in Proofs/LayerFileP.v (lf_wf), Proofs/C11P.v
-   (wf_world = files_ok && lc_regular && cmd_ok) and Proofs/C11cP.v (wf_rebase); examples that
+   (wf_world = files_ok && lc_regular && cmd_ok), Proofs/C11cP.v (wf_rebase) and Proofs/C11rP.v
+   (wf_rename, wf_rewrite); examples that
    satisfy them, and witnesses of what fails without them, are in Proofs/WitnessP.v. *)
 From LC Require Import Lib.Bytes Lib.Fields Lib.PathM Model.FsTree Model.Kernel Model.Layers
-  Cases.LC Cases.C11 Proofs.LayerFileP Proofs.C11P Proofs.C11cP.
+  Cases.LC Cases.C11 Proofs.LayerFileP Proofs.C11P Proofs.C11cP Proofs.C11rP.
 Import LC.
 
 (* (a) read (write cfg) = cfg: same base, imports, exports, same order, no error *)
@@ -58,3 +59,26 @@ Theorem C11_rebase_step_spec : forall cfg w e um name newbase,
   C11.step_spec cfg w (view_of_model cfg w e (CRebase name newbase) um) = true.
 Proof. exact rebase_step_spec. Qed.
 Print Assumptions C11_rebase_step_spec.
+
+(* (c) a successful rename: the renamed layer is found under its new name, its children have
+   the new name as base, every other layer is unchanged; imports and exports are all kept *)
+Theorem C11_rewrite_preserves_rename : forall cfg w e um oldname newname,
+  e_pretend e = false -> wf_rename cfg (wo_fs w) oldname newname = true ->
+  conj2 cfg w (view_of_model cfg w e (CRename oldname newname) um) = true.
+Proof. exact rename_preserves. Qed.
+Print Assumptions C11_rewrite_preserves_rename.
+
+Theorem C11_rename_step_spec : forall cfg w e um oldname newname,
+  wf_world cfg (wo_fs w) (CRename oldname newname) = true -> wf_rename cfg (wo_fs w) oldname newname = true ->
+  C11.step_spec cfg w (view_of_model cfg w e (CRename oldname newname) um) = true.
+Proof. exact rename_step_spec. Qed.
+Print Assumptions C11_rename_step_spec.
+
+(* (c) for the two rewriting commands treated; the full statement would quantify over every
+   command (add and the commands that rewrite nothing are not covered) and carry no hypothesis
+   on the world *)
+Theorem C11_rewrite_preserves_partial : forall cfg w e cmd um,
+  e_pretend e = false -> wf_rewrite cfg (wo_fs w) cmd = true ->
+  conj2 cfg w (view_of_model cfg w e cmd um) = true.
+Proof. exact rewrite_preserves. Qed.
+Print Assumptions C11_rewrite_preserves_partial.
